@@ -11,9 +11,16 @@
   Python truthiness of a string is the parameter `truthy`, the constant `"2.0"` the parameter `v20`,
   membership of `SIGNER_ALGS` the parameter `algOk`.
 
-  Not modelled (inputs are kept inside this fragment by the harness): XML parsing, the XML-signature
-  profile validators and schema validation of `_check_signature` (C02), `only_use_keys_in_metadata`
-  other than its default `True` (C03), bindings other than POST / Redirect / SOAP.
+  The nine XML-signature profile validators of `_check_signature` (single Reference, it has a URI,
+  the URI is an anchor, the anchor is the ID of the enclosing element, c14n method allowed, one or two
+  transforms, all allowed, the enveloped-signature transform among them, no ds:Object) are ONE
+  predicate of the message, `profileOk`: the model says where it is required, not how it is computed
+  from the XML.  `intact` is what xmlsec answers for the element the Reference names; `covers` says
+  whether that is the request element being processed (used by the specification only).
+
+  Not modelled (inputs are kept inside this fragment by the harness): XML parsing, schema validation
+  in `_check_signature`, `only_use_keys_in_metadata` other than its default `True` (C03), bindings
+  other than POST / Redirect / SOAP.
 -/
 namespace Request
 
@@ -99,9 +106,13 @@ structure Msg (α κ : Type) where
   sigAlg : Option α
   signature : Option (DSig α κ)
   enveloped : Enveloped κ
+  profileOk : Bool                 -- all nine structural validators of `_check_signature` hold (signature present)
+  covers : Bool                    -- the signature verifies over the request element that is processed (spec only)
   version : α
   destination : Option α
-  issueInstant : Option Int        -- `none`: not an `xs:dateTime` (refused by `valid_instance`)
+  issueInstant : Option Int        -- the instant the attribute denotes; `none`: not an `xs:dateTime` at all
+  instantLexOk : Bool              -- written in a form the receiver reads (`YYYY-MM-DDThh:mm:ss(.f*)?Z?`); a
+                                   -- numeric zone designator (`+hh:mm`) is refused by `valid_instance`
 deriving Repr
 
 /-- Where `_parse_request` stops.  Everything but `ok` is an exception in pysaml2. -/
@@ -110,6 +121,7 @@ inductive Verdict where
   | notThisType         -- signature_check cannot parse the element (TypeError → IncorrectlySigned)
   | signatureMissing    -- required enveloped signature absent
   | missingKey          -- signature present, no metadata certificate for the issuer
+  | profileBad          -- signature present, an xmldsig profile validator fails
   | signatureBad        -- signature present, verifies under no metadata certificate
   | certificateBad      -- CertificateError from `verify_cert`
   | detachedMissing     -- Redirect, required, SigAlg or Signature parameter absent
@@ -144,8 +156,10 @@ def verifyCert (validate : Bool) (c : Cert κ) : Bool := !validate || c.chainOk
 
 /-- `_check_signature` for a message that carries an enveloped signature made with `key`
     (`none` = the message object is returned). -/
-def checkSignature (validate certOnly : Bool) (md : List (Cert κ)) (key : κ) (intact : Bool) : Option Verdict :=
+def checkSignature (validate certOnly : Bool) (md : List (Cert κ)) (key : κ) (intact profileOk : Bool) :
+    Option Verdict :=
   if md.isEmpty then some .missingKey else    -- `only_use_keys_in_metadata`: no fallback to the embedded certificate
+  if !profileOk then some .profileBad else    -- `if not all(validators.values()): raise SignatureError` (any mode)
   match md.find? (fun c => intact && decide (c.key = key)) with
   | some c => if verifyCert validate c then none else some .certificateBad
   | none =>
@@ -157,11 +171,11 @@ def checkSignature (validate certOnly : Bool) (md : List (Cert κ)) (key : κ) (
 
 /-- `self.signature_check(xmldata, must=sign_post, only_valid_cert=…)` = `correctly_signed_message`. -/
 def signatureCheck (row : KindRow) (validate : Bool) (md : List (Cert κ)) (signPost certOnly : Bool)
-    (e : Enveloped κ) : Option Verdict :=
+    (e : Enveloped κ) (profileOk : Bool) : Option Verdict :=
   if !row.parsesOwnType then some .notThisType else
   match e with
   | .absent => if signPost && row.forwardsMust then some .signatureMissing else none
-  | .signed k i => checkSignature validate (certOnly && row.forwardsCertOnly) md k i
+  | .signed k i => checkSignature validate (certOnly && row.forwardsCertOnly) md k i profileOk
 
 /-- `verify_redirect_signature` with one metadata certificate. -/
 def verifyRedirect (algOk : α → Bool) (m : Msg α κ) (alg : α) (sig : DSig α κ) (c : Cert κ) : Bool :=
@@ -192,7 +206,7 @@ def parseRequest (algOk : α → Bool) (v20 : α) (truthy : α → Bool) (row : 
   let must := cfg.wantSigned || cfg.certOnly          -- `if only_valid_cert: must = True`
   let signRedirect := must && decide (m.binding = .redirect)
   let signPost := must && !signRedirect
-  match signatureCheck row cfg.validateCert md signPost cfg.certOnly m.enveloped with
+  match signatureCheck row cfg.validateCert md signPost cfg.certOnly m.enveloped m.profileOk with
   | some v => v
   | none =>
     if signRedirect && !detachedPresent m then .detachedMissing else
@@ -200,6 +214,7 @@ def parseRequest (algOk : α → Bool) (v20 : α) (truthy : α → Bool) (row : 
     match m.issueInstant with
     | none => .notValid
     | some ts =>
+      if !m.instantLexOk then .notValid else
       if m.version ≠ v20 then .versionMismatch else
       if destRefused truthy (receiverAddrs cfg m.binding) m.destination then .notForMe else
       -- struct_time comparison: `issued_at > lower` holds at the equal second (tm_isdst 0 > -1),
